@@ -1,6 +1,10 @@
 package main
 
 import (
+	"os"
+	"os/exec"
+	"strings"
+	"bufio"
 	"time"
 	stdx509 "crypto/x509"
 	"crypto/x509/pkix"
@@ -133,6 +137,15 @@ func init() {
 		for i, der := range manySanCerts() {
 			objs = append(objs, object{fmt.Sprintf("generated-many-san-%d", i), der})
 		}
+		for _, zc := range certZoo() {
+			if zc.Class != "many-san" && zc.Class != "order-sensitive" {
+				objs = append(objs, object{zc.File, zc.DER})
+			}
+		}
+		out.Data["zoo_classes"] = zooClasses(certZoo())
+		if tier() != "thorough" {
+			reps = 4
+		}
 		// (a) repetition: same status and details, however often
 		unstable := map[string]bool{}
 		repRuns := 0
@@ -231,6 +244,46 @@ func init() {
 			}
 		}
 		out.Stats["histories"] = histRuns
+		// (b') order independence across processes: the whole population linted in one order in a fresh process and in the
+		// reverse order in another; a verdict that depends on what was linted before differs between the two
+		{
+			self, _ := os.Executable()
+			run := func(dir string) (map[string]string, error) {
+				cmd := exec.Command(self, "c05order", dir)
+				cmd.Env = os.Environ()
+				b, err := cmd.Output()
+				if err != nil {
+					return nil, err
+				}
+				m := map[string]string{}
+				for _, ln := range strings.Split(string(b), "\n") {
+					if i := strings.Index(ln, "\t"); i > 0 {
+						m[ln[:i]] = ln[i+1:]
+					}
+				}
+				return m, nil
+			}
+			fwd, e1 := run("fwd")
+			rev, e2 := run("rev")
+			if e1 != nil || e2 != nil {
+				out.Violate("C05|order-run-failed", fmt.Sprintf("the order-independence processes failed: %v %v", e1, e2), nil, nil, nil)
+			}
+			diffs := 0
+			for k, v := range fwd {
+				if rev[k] != v {
+					parts := strings.SplitN(k, "|", 2)
+					if len(parts) == 2 && unstable[parts[1]+"|"+parts[0]] {
+						continue
+					}
+					diffs++
+					if diffs <= 10 {
+						out.Violate("C05|history-dependent:"+strings.SplitN(k, "|", 2)[1], fmt.Sprintf("%s: %q when the population is linted in one order (fresh process), %q in the reverse order", k, v, rev[k]),
+							map[string]interface{}{"object|lint": k, "how": "harness c05order fwd  vs  harness c05order rev"}, v, rev[k])
+					}
+				}
+			}
+			out.Stats["order_pairs_compared"] = len(fwd)
+		}
 		// (c) read-only: the parsed object is unchanged by linting
 		roRuns := 0
 		for _, o := range objs {
@@ -337,6 +390,36 @@ func init() {
 			zlint.LintOcspResponse(cc.Resp)
 		}
 		osOpen("/VERIF-LINT-END")
+		return nil
+	}
+}
+
+// c05order: lint the whole population (corpus and zoo) once, in the given order, in this fresh process; print one line
+// per (object, lint) with status and details
+func init() {
+	commands["c05order"] = func(args []string) error {
+		corpus := loadCorpus()
+		var objs []CorpusCert
+		objs = append(objs, corpus.Certs...)
+		for _, zc := range certZoo() {
+			objs = append(objs, zc.CorpusCert)
+		}
+		if len(args) > 0 && args[0] == "rev" {
+			for i, j := 0, len(objs)-1; i < j; i, j = i+1, j-1 {
+				objs[i], objs[j] = objs[j], objs[i]
+			}
+		}
+		w := bufio.NewWriter(os.Stdout)
+		defer w.Flush()
+		for _, o := range objs {
+			c, err := x509.ParseCertificate(o.DER)
+			if err != nil {
+				continue
+			}
+			for n, r := range resultsOf(zlint.LintCertificate(c)) {
+				fmt.Fprintf(w, "%s|%s\t%d %s\n", o.File, n, r.Status, strings.ReplaceAll(r.Details, "\n", " "))
+			}
+		}
 		return nil
 	}
 }
